@@ -139,14 +139,20 @@ impl Generator {
                 self.pop();
             }
             Dup => {
-                if let Some(top) = self.peek() {
-                    // IMPORTANT: don't duplicate a MARK!
-                    // duplicating MARKs creates invalid pickle state that causes
-                    // TUPLE to fail (it tries to pop until MARK, but if stack is
-                    // all MARKs, it crashes with "list index out of range")
-                    if !matches!(*top.borrow(), StackObject::Mark) {
-                        self.state.stack.inner.push(top.clone());
-                    }
+                // IMPORTANT: don't duplicate a MARK!
+                // duplicating MARKs creates invalid pickle state that causes
+                // TUPLE to fail (it tries to pop until MARK, but if stack is
+                // all MARKs, it crashes with "list index out of range")
+                //
+                // the duplicate gets a cell of its own (a shallow copy) instead of a second
+                // handle to the same cell: with two handles a container can be inserted into
+                // itself (DUP, APPEND), and such an Rc cycle is never freed
+                let copy = self
+                    .peek()
+                    .filter(|top| !matches!(*top.borrow(), StackObject::Mark))
+                    .map(|top| top.borrow().clone());
+                if let Some(copy) = copy {
+                    self.push(copy);
                 }
             }
             Mark => {
